@@ -17,7 +17,9 @@ LEVEL_TEXT = ("The gate function is translated from the current source into Lean
               "(mayWrite_iff for ALL flag words and verbosity values, monotonicity in verbosity and quiet) are re-checked "
               "by the kernel against that translation; that every public writing entry point of IO/Output/SectionOutput "
               "goes through this gate is established by an exhaustive table (entry point x kind x verbosity x flags x "
-              "quiet x ANSI/plain) compared with the model and with the property statement.")
+              "quiet x ANSI/plain) compared with the model and with the property statement; the Lean reading of "
+              "'lowest requested level' (Gate.lowest) and the declarative statement (Gate.shouldWrite) are compared with "
+              "the oracle's own on every case.")
 LEVEL_NOTE = ("Trusted: Lean kernel + propext/Quot.sound/Classical.choice, the py2lean translator, the reflection "
               "harness. Not proved: that each entry point calls the gate (exhaustively tested instead).")
 LEAN_MODULES = ["Clikit.Props.C10"]
@@ -171,11 +173,15 @@ def model_requests(case):
 
 
 def model_obs(case, answers):
-    return {"wrote": answers[0]["may_write"]}
+    # "lowest": the Lean reading of "the lowest level requested by the flags" (Gate.lowest, the right-hand side of
+    # mayWrite_iff); "should": the declarative statement (Gate.shouldWrite, proved equal to the translated gate)
+    return {"wrote": answers[0]["may_write"], "should": answers[0]["should_write"], "lowest": answers[0]["lowest"]}
 
 
 def impl_view(case, obs):
-    return {"wrote": obs["wrote"]}
+    # the implementation's behaviour must match the translated gate AND the declarative statement; the oracle's own
+    # reading of "lowest requested level" must be the one the theorems use
+    return {"wrote": obs["wrote"], "should": obs["wrote"], "lowest": _lowest(case["flags"])}
 
 
 def _lowest(flags):
